@@ -34,6 +34,12 @@ def _account_stream(stats, plan, tr):
         stats.probe('mode_' + plan['knobs']['mode'])
         if plan['knobs'].get('filter'):
             stats.probe('filtered_streams')
+        if plan.get('sub') == 'eof':
+            stats.probe('streams_ending_inside_a_message')
+            cut = plan['items'][-1]['fault']['cut']
+            w = streamsim.bufrgen.walk(bytes.fromhex(plan['items'][-1]['hex']))
+            sec = [k for k, (o, l) in w['sections'].items() if o <= cut < o + l]
+            stats.probe('eof_in_section_%s' % (sec[0] if sec else (0 if cut < 8 else 5)))
         if plan['knobs'].get('warm'):
             stats.probe('decoder_used_before_' + plan['knobs']['warm']['how'])
         if plan['knobs'].get('compiled') is not None:
@@ -116,7 +122,8 @@ def c11(tier):
 def c12(tier):
     return runner.check_main(
         'C12', tier, streamsim, 'streamsim',
-        [('c12', 1500, 40000), ('c12-enum', 48, 1500), ('c12-trunc', 60, 1200), ('c12-tail', 200, 4000)],
+        [('c12', 1500, 40000), ('c12-eof', 400, 12000), ('c12-enum', 48, 1500), ('c12-trunc', 60, 1200),
+         ('c12-tail', 200, 4000)],
         'fault_enumeration',
         'seeded streams of 2..8 messages, each message damaged with seeded probability by one of {stopsig, '
         'undef_el, undef_seq, len-, len+} (every subset of damaged messages occurs), full/info-only, with and '
@@ -124,7 +131,8 @@ def c12(tier):
         'the named kinds at EVERY position (each descriptor position x {undefined element, undefined sequence}, '
         'each section x each length delta, stop-signature variants), one pristine process per fault (family '
         'c12-enum); plus per sampled message every truncation point (exhaustive '
-        '<=1000 B quick / <=6000 B thorough, section edges + sampled cuts above) and arbitrary tails; distinct = '
+        '<=1000 B quick / <=6000 B thorough, section edges + sampled cuts above) and arbitrary tails; plus streams '
+        'whose producer crashes (end of input at a seeded octet of the last message - family c12-eof); distinct = '
         'abstract run shape (per message: class, fault kind+section+sign, separator class; mode; continue flag; '
         'front end); non-trivial = at least one fault fired and at least one undamaged message present',
         ASSUME_STREAM + [
